@@ -667,45 +667,29 @@ class AbstractExcelInPython(ABC):
         if start_num and (start_num > len(within_text) or start_num <= 0):
             return '#VALUE!'
 
-        pattern = r'([^~][?*]|^[?*])'
-        if len(re.findall(pattern, find_text)) == 0:
-            find_text = find_text.replace('~?', '?') \
-                .replace('~*', '*')
+        # the case of letters does not matter; a letter whose other case is not one letter is compared as it is
+        find_text, within_text = [''.join(char.casefold() if len(char.casefold()) == 1 else char for char in text)
+                                  for text in (find_text, within_text)]
 
-            result = within_text.lower().find(find_text.lower(), start_num - 1) + 1
-            return result if result else '#VALUE!'
+        # ? stands for any character, * for any characters, ~ before ?, * or ~ cancels their special meaning
+        pattern = ''
+        position = 0
+        while position < len(find_text):
+            char = find_text[position]
+            if char == '~' and find_text[position + 1:position + 2] in ('?', '*', '~'):
+                position += 1
+                pattern += re.escape(find_text[position])
+            elif char == '?':
+                pattern += '.'
+            elif char == '*':
+                pattern += '.*'
+            else:
+                pattern += re.escape(char)
+            position += 1
 
-        find_text = find_text \
-            .replace('?', '(.)') \
-            .replace('*', '(.*)') \
-            .replace('~(.*)', r'\*') \
-            .replace('~(.)', r'\?')
-
-        result = re.finditer(find_text, within_text, re.I)
-
-        if result is None:
-            return '#VALUE!'
-
-        find_elem = None
-        for i in result:
-            if i.span(0)[0] + 1 < start_num:
-                continue
-            find_elem = i
-            break
-        # исключаем поиск по regex вроде \d
-        if find_elem:
-            sequences = find_elem.groups(0)
-            found_text = find_elem.group(0)
-            find_text = find_text.replace('(.*)', '(.)') \
-                .replace(r'\?', '?') \
-                .replace(r'\.', '.')
-            for sequence in sequences:
-                find_text = find_text.replace('(.)', sequence, 1)
-
-            if found_text.lower() != find_text.lower():
-                return '#VALUE!'
-
-        return find_elem.span(0)[0] + 1 if find_elem else '#VALUE!'
+        # the first occurrence that begins at start_num or later
+        found = re.compile(pattern, re.DOTALL).search(within_text, start_num - 1)
+        return found.start() + 1 if found else '#VALUE!'
 
     def _network_days(self, date_start: datetime.datetime, date_end: datetime.datetime,
                       holidays: List[List[datetime.datetime]] | None = None):
